@@ -20,7 +20,7 @@ enum Build {
     Stream,
     /// every item streamed, then half of them again
     Repeats,
-    /// items split over three sketchers which are merged
+    /// items split over three sketchers; a fourth one that only merges collects two of them and is merged into the third
     Merged,
     /// one sketcher used for an unrelated larger set first, then reinit
     Reused,
@@ -52,12 +52,17 @@ macro_rules! rel_error_body {
                 for x in &ids[c2..] {
                     s3.sketch(x).unwrap();
                 }
-                s2.merge(&s3).unwrap();
-                s.merge(&s2).unwrap();
+                // an accumulator that never sketches anything itself collects two parts and is merged into the third
+                let mut acc = SetSketcher::<$t, u64, FnvHasher>::new($params, Default::default());
+                acc.merge(&s2).unwrap();
+                acc.merge(&s3).unwrap();
+                s.merge(&acc).unwrap();
             }
             Build::Reused => {
                 let m = $params.get_m() as usize;
-                let junk = fresh_ids($rng, (30 * m).min(20_000) + 5, 0);
+                let mut junk = fresh_ids($rng, (30 * m).min(20_000) + 5, 0);
+                // the last item before reinit is the first one after it
+                junk.push(ids[0]);
                 s.sketch_slice(&junk).unwrap();
                 s.reinit();
                 s.sketch_slice(&ids).unwrap();
